@@ -642,11 +642,13 @@ class InterpolatableFunction(ABC):
         if self.hasInterpolation():
             appendPointCount = int(0.2 * self._initialInterpolationPointCount)
         else:
-            if evaluatedPointMin == evaluatedPointMax:
-                # A single distinct point cannot seed an interpolation table
-                # (it would have zero width); wait for more evaluations.
-                return
             appendPointCount = int(self._initialInterpolationPointCount / 2)
+            # A single distinct point, or points only a rounding error apart, cannot
+            # seed an interpolation table (its abscissae would coincide in double
+            # precision); wait for more evaluations.
+            scale = max(abs(evaluatedPointMin), abs(evaluatedPointMax))
+            if evaluatedPointMax - evaluatedPointMin <= 1e-8 * scale * 2 * appendPointCount:
+                return
 
         self.extendInterpolationTable(
             evaluatedPointMin, evaluatedPointMax, appendPointCount, appendPointCount
